@@ -35,7 +35,7 @@ COMPONENTS = {"real": ["ECAgent.Collectors.AgentCollector.collect", "FileCollect
 PROBES = ["empty_record_suppressed", "collector_off_window", "removed_by_higher_priority_same_step",
           "added_by_higher_priority_same_step", "changed_after_collector_turn", "composite_used", "value_zero_recorded",
           "crash_at_flush_boundary", "crash_mid_flush", "real_file", "composite_shared_dict", "empty_string_record", "environment_replaced", "system_removed_next_to_collector", "empty_collection", "empty_flush",
-          "preexisting_content", "two_file_collectors", "buffer_overflow_mid_flush", "falsy_callable_objects_as_functions", "model_with_own_timestep_attribute", "collect_returns_a_value", "write_records_overridden_by_the_user", "composite_result_not_a_dict"]
+          "preexisting_content", "two_file_collectors", "buffer_overflow_mid_flush", "falsy_callable_objects_as_functions", "model_with_own_timestep_attribute", "collect_returns_a_value", "write_records_overridden_by_the_user", "composite_result_not_a_dict", "stateful_per_agent_function"]
 TECHNIQUE = "deterministic simulation: population changing on a seeded schedule inside timesteps vs a replaying reference; simulated disk with crash points and the conservation invariant file + held = collected"
 LEVEL_TEXT = ("Seeded search over population-change schedules, collector windows and disk behaviour; after every timestep the "
               "records equal the reference's and earlier records are untouched; for the file collector, after every disk event "
@@ -93,7 +93,7 @@ def gen_agent_arm(rng, tier):
     for i in range(rng.choice([1, 1, 2])):
         c = {"id": "AgentCollector" if i == 0 and rng.random() < 0.5 else f"col{i}",
              "prio": rng.choice([None, None, None, 2, 0, -1, -3]),
-             "func": rng.choice(["value", "value", "none_for_neg", "always_none", "listed", "even_only"]),
+             "func": rng.choice(["value", "value", "none_for_neg", "always_none", "listed", "even_only", "count_calls"]),
              "composite": rng.choice([None, None, "dict", "empty", "none", "shared", "shared", "proxy", "pairs"]), "ts": rng.random() < 0.4}
         c.update(gen_window(rng, steps))
         collectors.append(c)
@@ -148,6 +148,8 @@ FUNCS = {
     "always_none": lambda v: None,
     "listed": lambda v: [v, v * 2],
     "even_only": lambda v: v if v % 2 == 0 else None,
+    # "count_calls" is stateful (see run_agent_arm): the value and how often THIS collector has asked about the agent so far
+    "count_calls": lambda v: [v, "n"],
 }
 
 
@@ -307,6 +309,12 @@ def run_agent_arm(sc, ctx):
                 else:
                     comp = (lambda agents, kind_c=kind_c: composite_ref(kind_c, {k: a[Val].v for k, a in agents.items()}))
             afn = (lambda a, fn=fn: fn(a[Val].v))
+            if s["func"] == "count_calls":
+                # a per-agent function with a memory (a drained counter, an event queue): one collection asks it once per agent
+                def afn(a, cnt={}):
+                    cnt[a.id] = cnt.get(a.id, 0) + 1
+                    return [a[Val].v, cnt[a.id]]
+                ctx.probe("stateful_per_agent_function")
             if sc.get("falsy_callables"):
                 ctx.probe("falsy_callable_objects_as_functions")
                 afn = FalsyCall(afn, "agent")
@@ -319,6 +327,7 @@ def run_agent_arm(sc, ctx):
         ref.add(rs)
         specs[s["id"]] = s
     want = {cid: [] for cid in cols}
+    refcnt = {}
     shape = []
     nontrivial = False
     for t in range(min(int(sc["steps"]), 60)):
@@ -368,6 +377,10 @@ def run_agent_arm(sc, ctx):
                         f7_expected.append((rs["id"], t))
                 for aid, v in pop.items():
                     r = FUNCS[s["func"]](v)
+                    if s["func"] == "count_calls":
+                        asked = refcnt.setdefault(rs["id"], {})
+                        asked[aid] = asked.get(aid, 0) + 1
+                        r = [v, asked[aid]]
                     if r is not None:
                         rec[aid] = r
                         if r == 0:
